@@ -33,14 +33,17 @@ BackupL(j, N, M) == [k |-> "backup", lo |-> [i \in 1..N |-> (i + j + 1) % 2], hi
                      dflt |-> [q \in 1..M |-> 0 - (10 * j + q)]]
 AffineL(j, N) == [k |-> "affine", A |-> [i \in 1..N |-> [c \in 1..(N + 1) |->
                      IF c = i THEN 1 ELSE IF c = N + 1 THEN (i + j) % 2 ELSE 0]]]
-ShuffleL(N) == [k |-> "shuffle", perm |-> [i \in 1..N |-> i % N]]
+\* shuffles at odd positions rotate (output i reads input i+1), at even positions they swap the first two coordinates: for
+\* N >= 3 the two do not commute, so a nest of shuffles distinguishes "outer after inner" from "inner after outer"
+ShuffleL(j, N) == [k |-> "shuffle", perm |-> IF j % 2 = 1 \/ N < 2 THEN [i \in 1..N |-> i % N]
+                                              ELSE [i \in 1..N |-> IF i = 1 THEN 1 ELSE IF i = 2 THEN 0 ELSE i - 1]]
 CastL(T) == [k |-> "cast", t |-> T]
 DerefL == [k |-> "deref"]
 InterpL(kind, N, ins) == [k |-> kind, n |-> N, ins |-> ins]
 
 WrapperKinds == <<"clamp", "backup", "shuffle", "cast", "deref", "affine">>
 MakeWrapper(kind, j, N, M, T) ==
-  CASE kind = "clamp" -> ClampL(j, N) [] kind = "backup" -> BackupL(j, N, M) [] kind = "shuffle" -> ShuffleL(N)
+  CASE kind = "clamp" -> ClampL(j, N) [] kind = "backup" -> BackupL(j, N, M) [] kind = "shuffle" -> ShuffleL(j, N)
     [] kind = "cast" -> CastL(Other(T)) [] kind = "deref" -> DerefL [] kind = "affine" -> AffineL(j, N)
 
 NOf(i) == (i % 3) + 1                    \* rotating dimensionalities 1..3 (4 in the samples)
@@ -76,6 +79,13 @@ PairStacks ==
   \* primitives and storage orders on their own, N = 4 included
   \cup {<<LayoutL(lay, N), ArrayL(MOf(N), TOf(N), lay, N)>> : lay \in {"strided", "morton"}, N \in 1..4}
   \cup {<<LayoutL("hilbert", 2), ArrayL(3, "float", "hilbert", 2)>>, <<ConstL(3, 1, "float", "float")>>, <<ConstL(1, 3, "double", "float")>>, <<IdentL(3, "float")>>}
+
+\* nests of shuffles with permutations that do not commute (N = 3, 4), directly and with another layer in between (always
+\* included, also in the quick tier)
+NestStacks ==
+  {<<ShuffleL(1, N), ShuffleL(2, N)>> \o IntTail(N, 2, "float") : N \in 3..4}
+  \cup {<<ShuffleL(2, N), ShuffleL(1, N)>> \o RealTail(N, N, 1, "float") : N \in 3..4}
+  \cup {<<ShuffleL(2, 3), ShuffleL(1, 3), ShuffleL(2, 3)>> \o IntTail(3, 1, "double"), <<ShuffleL(1, 3), ClampL(1, 3), ShuffleL(2, 3)>> \o IntTail(3, 2, "float")}
 
 \* ---- seeded samples of depth up to 5
 Mix(h) == ((h % 46337) * (h % 46337) + 12345) % 46337
@@ -117,7 +127,7 @@ Depth3Stacks == IF ~FullDepth3 THEN {}
 
 PairSeq == SetToSeq(PairStacks)
 CoverStacks == {PairSeq[i] : i \in {j \in 1..Len(PairSeq) : j % CoverStride = 0}}
-AllStacks == {st \in CoverStacks \cup SampleStacks : WellKinded(st) /\ Len(st) <= 5} \cup {st \in ChainStacks : WellKinded(st)}
+AllStacks == {st \in CoverStacks \cup SampleStacks \cup NestStacks : WellKinded(st) /\ Len(st) <= 5} \cup {st \in ChainStacks : WellKinded(st)}
              \cup {st \in Depth3Stacks : WellKinded(st) /\ Len(st) <= 3}
 
 \* ---- coordinates: candidates on the grid; the in-domain ones are those on which Eval is defined
@@ -143,7 +153,9 @@ OuterLaw ==
     CASE l.k = "clamp" -> Eval(kase, x) = Eval(rest, [i \in 1..Len(x) |-> Max({l.lo[i] * S, Min({l.hi[i] * S, x[i]})})])
       [] l.k = "backup" -> IF \A i \in 1..Len(x) : l.lo[i] * S <= x[i] /\ x[i] <= l.hi[i] * S
                            THEN Eval(kase, x) = Eval(rest, x) ELSE Eval(kase, x) = [q \in 1..Len(l.dflt) |-> l.dflt[q] * S]
-      [] l.k = "shuffle" -> Eval(kase, x) = Eval(rest, [i \in 1..Len(x) |-> x[(i % Len(x)) + 1]])
+      [] l.k = "shuffle" -> \E y \in [1..Len(x) -> {x[i] : i \in 1..Len(x)}] :
+                               /\ \A i \in 1..Len(x) : y[i] = x[l.perm[i] + 1]          \* output coordinate i is input coordinate perm[i]
+                               /\ Eval(kase, x) = Eval(rest, y)
       [] l.k \in {"cast", "deref"} -> Eval(kase, x) = Eval(rest, x)
       [] l.k = "affine" -> Eval(kase, x) = Eval(rest, [i \in 1..Len(x) |-> x[i] + l.A[i][Len(x) + 1] * S])
       [] l.k = "constant" -> Eval(kase, x) = [q \in 1..l.m |-> 11 * q * S]
